@@ -90,6 +90,31 @@ def register(ex):
     ex.probe("logitsTopkOnCmp", "Cmp", ".gt", "utils/decoding.py:process_logits  `if top_k > 0:`", guard_cmp("top_k", "0"))
     ex.probe("logitsToppOnCmp", "Cmp", ".gt", "utils/decoding.py:process_logits  `if top_p > 0:`", guard_cmp("top_p", "0"))
 
+    def stage_guards():
+        """for the guarded stages: is the guard a plain value test `<option> <cmp> <const>` (true), or does it also
+        test the *representation* of the option (isinstance / type(...) — false)?  Other shapes: pattern-miss."""
+        out = []
+        for name, var in (("clip", "tanh_clipping"), ("topk", "top_k"), ("topp", "top_p")):
+            st = if_of("process_logits", var)
+            if st is None:
+                return None
+            t = st.test
+            typed = any(isinstance(n, ast.Call) and norm(n.func) in ("isinstance", "type", "torch.is_tensor", "callable")
+                        for n in ast.walk(t))
+            plain = (isinstance(t, ast.Compare) and len(t.ops) == 1 and norm(t.left) == var
+                     and isinstance(t.comparators[0], ast.Constant))
+            if typed:
+                out.append((name, "false"))
+            elif plain:
+                out.append((name, "true"))
+            else:
+                return None
+        return "[" + ", ".join(f'("{n}", {v})' for n, v in out) + "]"
+
+    ex.probe("logitsStageGuards", "List (String × Bool)", '[("clip", true), ("topk", true), ("topp", true)]',
+             "utils/decoding.py:process_logits  the guards `if tanh_clipping > 0`, `if top_k > 0`, `if top_p > 0` test only the "
+             "VALUE of the option (false: the guard also tests its representation, e.g. isinstance(top_k, int))", stage_guards)
+
     def topk_clamp():
         st = if_of("process_logits", "top_k")
         if st is None:
